@@ -19,7 +19,7 @@ for f in sorted(glob.glob('seeded/*/meta.json')):
     else:
         res = 'caught' + (f' ({kind})' if kind else '')
     if m.get('history'):
-        res += ' — after strengthening: ' + re.sub(r'\s+', ' ', m['history'])[:260].replace('|', '\\|')
+        res += ' — after strengthening: ' + re.sub(r'\s+', ' ', m['history'] if isinstance(m['history'], str) else '; '.join(map(str, m['history'])))[:260].replace('|', '\\|')
     rows.append(f'| {sid} | {need[:300]} | {res} |')
 table = '| Seeded | Needs, to manifest | Result of `./check <property> quick` on it |\n|---|---|---|\n' + '\n'.join(rows) + '\n'
 p = 'DESIGN.md'
